@@ -181,6 +181,20 @@ class Interp:
         if d.startswith("core::ops::function::Fn") and name in ("call", "call_mut", "call_once") and len(argv) == 2 and isinstance(argv[0], tuple) and argv[0] and argv[0][0] in ("closure", "fn") \
                 and isinstance(argv[1], tuple) and argv[1] and argv[1][0] == "tuple":
             return self.apply(body, argv[0], list(argv[1][1]), depth)
+        if ((name == "parse" and d.startswith("core::str::<impl str>::parse")) or (name == "from_str" and d == "core::str::traits::FromStr::from_str")) and argv and isinstance(argv[-1], str) \
+                and f.get("substs") and (f["substs"][-1 if name == "parse" else 0] or {}).get("prim") in ("f32", "f64"):
+            # Rust's float grammar (core::num::dec2flt): optional sign, then inf / infinity / nan (any case) or a decimal with
+            # optional exponent; no surrounding whitespace, no underscores
+            import re as _re
+            txt = argv[-1]
+            m_ = _re.fullmatch(r"([+-]?)(?:(inf|infinity|nan)|((?:\d+\.?\d*|\.\d+)(?:[eE][+-]?\d+)?))", txt, _re.I)
+            if not m_:
+                return adt("core::result::Result", 1, [("sym", "ParseFloatError")])
+            if m_.group(2):
+                v_ = float("nan") if m_.group(2).lower() == "nan" else float("inf")
+            else:
+                v_ = float(m_.group(3))
+            return adt("core::result::Result", 0, [-v_ if m_.group(1) == "-" else v_])
         if name in ("is_some", "is_none", "is_ok", "is_err") and argv and is_adt(argv[0]) and argv[0][1] in ("core::option::Option", "core::result::Result") and d.startswith(argv[0][1]):
             some_like = argv[0][2] == (1 if argv[0][1].endswith("Option") else 0)
             return some_like if name in ("is_some", "is_ok") else not some_like
@@ -279,6 +293,22 @@ class Interp:
     def _combinator(self, body, f, argv, depth):
         """std Option / Result / bool combinators on concrete receivers (semantics table shared with vf.lower)"""
         from . import lower as _lower
+        OPT_, RES_ = "core::option::Option", "core::result::Result"
+        if f.get("name") == "transpose" and argv and is_adt(argv[0]) and not f.get("trait"):
+            r0 = argv[0]
+            if r0[1] == OPT_ and f.get("def", "").startswith(OPT_):
+                if r0[2] == 0:
+                    return adt(RES_, 0, [adt(OPT_, 0, [])])
+                inner = r0[3][0]
+                if is_adt(inner) and inner[1] == RES_:
+                    return adt(RES_, 0, [adt(OPT_, 1, [inner[3][0]])]) if inner[2] == 0 else adt(RES_, 1, [inner[3][0]])
+            if r0[1] == RES_ and f.get("def", "").startswith(RES_):
+                if r0[2] == 1:
+                    return adt(OPT_, 1, [adt(RES_, 1, [r0[3][0]])])
+                inner = r0[3][0]
+                if is_adt(inner) and inner[1] == OPT_:
+                    return adt(OPT_, 0, []) if inner[2] == 0 else adt(OPT_, 1, [adt(RES_, 0, [inner[3][0]])])
+            return NO_VALUE
         co = _lower.combinator_of({"call": f})
         if co is None or not argv:
             return NO_VALUE
